@@ -262,7 +262,13 @@ fn tlv_items(mut it: v2::TypeLengthValues<'_>, nbytes: usize) -> String {
             }
             Some(Ok(t)) => {
                 let o = t.to_owned();
-                owned_ok &= o == t && o.len() == t.len() && o.is_empty() == t.is_empty() && t.len() == t.value.len();
+                owned_ok &= o == t
+                    && o.len() == t.len()
+                    && o.is_empty() == t.is_empty()
+                    && t.len() == t.value.len()
+                    && t.is_empty() == (t.value.len() == 0)
+                    && o.kind == t.kind
+                    && o.value == t.value;
                 parts.push(format!("{}:{}", t.kind, hex(&t.value)));
             }
             Some(Err(e)) => {
